@@ -448,6 +448,11 @@ def yaml_fixed_worlds():
             return None
         w.add('mdoc yaml %s %s' % (hx(YDOC), docs.any_matcher(paths, json.dumps(ph))), ('yaml-multi-path-replaced', oracle))
         ws.append(w)
+        # the same through a matcher VALUE that was applied before under another placeholder and configured again
+        # (harness flag `r`): the placeholder it carries NOW is what is written
+        w2 = World('c15yf-reused-%d' % n)
+        w2.add('mdoc yaml %s %s' % (hx(YDOC), docs.any_matcher(paths, json.dumps(ph), True, False).replace('A;1;', 'A;1r;', 1)), ('yaml-reconfigured-matcher-writes-its-current-placeholder', oracle))
+        ws.append(w2)
     return ws
 
 
